@@ -513,6 +513,7 @@ func (a *Adv) ContractProbes() int {
 		})
 		mk("expiration-not-after-proof", func(fc *types.V2FileContract) bool { fc.ExpirationHeight = fc.ProofHeight; return true })
 	}
+	n += a.renewalStripped("reject")
 	// ---- v2 renewal breaking the value split
 	for ti := range a.Honest.V2Transactions() {
 		orig := a.Honest.V2.Transactions[ti]
